@@ -755,6 +755,10 @@ def _emit_fn(g, source, a, blocks, vacuity, probe_insert=None):
         body = "".join(("self" if (t.kind == "ident" and t.text == "this") else t.text) for t in tokenize(body))
     for ra in blocks["replaces"]:
         rep = "\n".join(ra["text"]).strip("\n")
+        if ra.get("optional") and norm(ra["pattern"]) not in norm(body):
+            # the text the declared replacement is for is gone: nothing to replace (what is there instead is verified as it is)
+            rules.append((ra.get("rule", "R9"), f"replace `{ra['pattern']}`: not present"))
+            continue
         body = replace_pattern(body, ra["pattern"], rep, f.name, int(ra.get("count", 1)))
         rules.append((ra.get("rule", "R9"), f"replace `{ra['pattern']}` -> `{norm(rep)[:200]}`"))
     # R12b: a `const NAME: T = <literal>;` of the same source file that the body refers to and the unit does not
